@@ -1648,3 +1648,33 @@ def compare_addr_tables(af, mf):
                 if want != got:
                     return f"{tb['block']}.{tm['name']} index {i}: emitted arithmetic gives {want}, AddrSem gives {got}"
     return None
+
+
+def signed_enum_discriminant_overflow(adef):
+    """Class predicate of F23: an inline enum on an `int` field one of whose numbers (explicit, or implicit = previous + 1)
+    lies above the signed maximum of the enum's repr (`i8` for up to 8 bits, `i16` ...): the analysis admits numbers up to
+    2^w - 1 whatever the base type, the emitted `#[repr(iN)] enum` cannot hold them."""
+    for o in all_objects(adef["objects"]):
+        for key in ("fields", "fields_in", "fields_out"):
+            for f in o.get(key) or []:
+                conv = f.get("conversion") or {}
+                e = conv.get("enum")
+                if f.get("base") != "int" or not e:
+                    continue
+                w = (f.get("end", f["start"] + 1)) - f["start"]
+                bits = 8
+                while bits < max(w, 8):
+                    bits *= 2
+                nxt = 0
+                for v in e.get("variants", []):
+                    val = v.get("value")
+                    if isinstance(val, dict):
+                        val = val.get("int")
+                    try:
+                        num = int(val)
+                    except (TypeError, ValueError):
+                        num = nxt
+                    nxt = num + 1
+                    if num > (1 << (bits - 1)) - 1:
+                        return True
+    return False
